@@ -4,7 +4,7 @@ PROP = {
     "properties_file": "Properties/C30.v",
     "theorems": ["C30_fuel_suffices", "C30_no_panic", "C30_no_panic_l2hello",
                  "C30_roundtrip_hello", "C30_roundtrip_lsp", "C30_roundtrip_csnp", "C30_roundtrip_psnp",
-                 "C30_new_csnps", "C30_new_psnps"],
+                 "C30_new_csnps", "C30_new_psnps", "C30_constructors_wf"],
     "allowed_axioms": [],
     "harness": "c30",
     "modelrun": {"name": "c30", "extracted": ["c30_model"], "driver": "ocaml/c30/c30_run.ml"},
@@ -14,9 +14,10 @@ PROP = {
             "PDU type, truncation at every offset for some PDUs, random bytes, appended junk), raw random bytes and the "
             "repository's fuzzing seeds; L = DecodeL2Hello; E = generated PDU values (every TLV struct that is a packet.TLV, "
             "well-formed and deliberately inconsistent ones) serialized and decoded; K = LSPDU.UpdateLength+SetChecksum; "
-            "C/P = NewCSNPs/NewPSNPs over 0..200 LSP entries x maxPDULen -5..9000 (grid around 15/16 entries per TLV and the "
+            "T = the TLV constructors (New*TLV, AddNeighbor/AddSubTLV, AddExtendedIPReachability) around the 255 byte limit, "
+            "the TLV then serialized inside an LSP and decoded; C/P = NewCSNPs/NewPSNPs over 0..200 LSP entries x maxPDULen -5..9000 (grid around 15/16 entries per TLV and the "
             "per-PDU capacity). Non-trivial: D reaches a PDU body decoder (known PDU type, more than 11 bytes); L more than 19 "
-            "bytes; E/K the PDU has at least one TLV; C/P more than one PDU or more than 15 entries. distinct = distinct inputs",
+            "bytes; E/K the PDU has at least one TLV; T always; C/P more than one PDU or more than 15 entries. distinct = distinct inputs",
     "trusted_base": [
         "extraction (ExtrOcamlBasic only) + ocaml/common/conv.ml + ocaml/c30/c30_run.ml (parser/printer of the canonical PDU text)",
         "Go harness harness/cmd/c30 (grammar, mutators, canonical rendering of decoded structs, reference encoder of the "
